@@ -34,6 +34,8 @@ pub struct X {
     default_finished: bool,
     /// which start fails (0 = the first, 1 = the start of the first restart)
     start_err: Option<usize>,
+    /// the handler of this message is abandoned by a carry-on limit (it logs no exit)
+    abandoned: Option<u32>,
 }
 
 fn to_op(a: A, id: u32) -> Op {
@@ -91,6 +93,7 @@ fn oracle(s: &ProgScene<X>, t: &Trace) -> Vec<Violation> {
     let mut started_per_inc: Vec<u16> = vec![];
     let mut stopped_per_inc: Vec<u16> = vec![];
     let mut finished_count = 0;
+    let mut open_handler: Option<Cb> = None;
     for w in &word {
         match *w {
             W::In(Cb::Started, inc) => {
@@ -112,6 +115,9 @@ fn oracle(s: &ProgScene<X>, t: &Trace) -> Vec<Violation> {
                 st = if beh == StartBeh::Ok { St::Running } else { St::StartFailed };
             }
             W::In(Cb::Stopped, inc) => {
+                if st == St::InHandler && open_handler == s.extra.abandoned.map(Cb::Msg) && open_handler.is_some() {
+                    st = St::Running;
+                }
                 let ok_state = if s.extra.stream && !s.extra.default_finished { st == St::Finished } else { st == St::Running };
                 if !ok_state {
                     v("protocol", format!("C03/{kind}/stopped-out-of-place"), format!("stopped() entered in state {st:?}"));
@@ -132,6 +138,11 @@ fn oracle(s: &ProgScene<X>, t: &Trace) -> Vec<Violation> {
             }
             W::Out(Cb::Finished, _) => st = St::Finished,
             W::In(cb, inc) => {
+                // (the abandoned handler is over when the next callback begins)
+                if st == St::InHandler && open_handler == s.extra.abandoned.map(Cb::Msg) && open_handler.is_some() {
+                    st = St::Running;
+                }
+                open_handler = Some(cb);
                 if st != St::Running {
                     let key = match st {
                         St::Fresh | St::Starting => "handler-before-started-completed",
@@ -147,6 +158,13 @@ fn oracle(s: &ProgScene<X>, t: &Trace) -> Vec<Violation> {
                 st = St::InHandler;
             }
             W::Out(_, _) => st = St::Running,
+        }
+    }
+    // one incarnation per spawn, one more per *requested* restart: nothing else starts one
+    {
+        let requested = an.ops.iter().filter(|o| o.ok() && matches!(s.clients.get(o.c as usize).and_then(|cs| cs.ops.get(o.i as usize)), Some(Op::Restart(_)))).count();
+        if started_per_inc.len() > 1 + requested {
+            v("protocol", format!("C03/{kind}/incarnation-nobody-asked-for"), format!("started() ran {} times although only {requested} restart(s) had been requested", started_per_inc.len()));
         }
     }
     // "... and nothing afterwards", as seen from outside: once an observer has been told that the
@@ -215,6 +233,8 @@ fn oracle(s: &ProgScene<X>, t: &Trace) -> Vec<Violation> {
 }
 
 thread_local! {
+    /// the first message of client 0 takes 5 ticks (with a carry-on limit of 2 it is abandoned)
+    static SLOW_FIRST: std::cell::Cell<bool> = const { std::cell::Cell::new(false) };
     /// context operations performed from inside the lifecycle hooks (see make_case_slow)
     static HOOK_ACTS: std::cell::Cell<u8> = const { std::cell::Cell::new(0) };
 }
@@ -255,6 +275,9 @@ fn make_case_slow(progs: &[Vec<A>], spawn: SpawnCfg, attach: Attach, start_err: 
         clients.push(ClientSpec { init: vec![HInit::Addr], ops: vec![Op::Sleep(2), Op::Stop(H::Addr(0)), Op::Await(H::Addr(0))] });
     }
     let mut role = RoleCfg::default();
+    if SLOW_FIRST.with(|s| s.get()) {
+        role.work.push((msg_id(0, 0), crate::world::Work { sleep: 5, ..Default::default() }));
+    }
     if let Some(n) = start_err {
         role.started = vec![StartBeh::Ok; n];
         role.started.push(StartBeh::Err);
@@ -302,7 +325,7 @@ fn make_case_slow(progs: &[Vec<A>], spawn: SpawnCfg, attach: Attach, start_err: 
         desc,
         exec: ExecCfg { horizon: 3 + slow_start as u64 * 8, ..ExecCfg::default() },
         bound: None,
-        scene: Box::new(ProgScene { variant: crate::progscene::current_variant(), spawn, attach, roles: vec![role], clients, extra: X { stream, default_finished, start_err }, oracle }),
+        scene: Box::new(ProgScene { variant: crate::progscene::current_variant(), spawn, attach, roles: vec![role], clients, extra: X { stream, default_finished, start_err, abandoned: if SLOW_FIRST.with(|s| s.get()) && spawn.timeout.is_some() { Some(msg_id(0, 0)) } else { None } }, oracle }),
     }
 }
 
@@ -373,6 +396,21 @@ fn base_cases(tier: Tier) -> Vec<Case> {
             }
         }
     }
+    // a handler that outlasts a carry-on limit is abandoned - and that is all: no lifecycle
+    // callback runs because of it (the first message takes 5 ticks, the limit is 2)
+    SLOW_FIRST.with(|s| s.set(true));
+    for &mb in mbs {
+        for strat in [Strat::Default, Strat::Recreate, Strat::NonRestartable] {
+            let spawn = SpawnCfg { mailbox: mb, strat, timeout: Some((2, false)) };
+            for p in [vec![A::Send, A::Call], vec![A::Call, A::Send, A::StopAddr], vec![A::Send, A::Send, A::DropAddr]] {
+                let mut c = make_case(&[p], spawn, Attach::None, None, false, false);
+                c.exec.horizon = 12;
+                c.exec.select_choice = false;
+                v.push(c);
+            }
+        }
+    }
+    SLOW_FIRST.with(|s| s.set(false));
     // an observer that stops the actor and awaits its address, while stopped() (and started())
     // take a tick: what it is told marks the end - for plain and for stream-attached actors
     for &mb in mbs {
